@@ -27,7 +27,9 @@ LIMITS = {
     'S': (3, 2, 3),
     'M': (4, 3, 5),
     'D': (6, 5, 10),
+    'P': (4, 3, 5),      # as M, but functions may declare up to 5 parameters (cfg.limits.fn.max_params; default 2)
 }
+MAX_PARAMS = {'P': 5}
 
 _env = {'ready': False}
 _ctr = [None]
@@ -154,6 +156,7 @@ def configure(config):
         sys.argv = old
     cfg.limits.min_top_level = mintl
     cfg.limits.max_top_level = maxtl
+    cfg.limits.fn.max_params = MAX_PARAMS.get(config.limits, 2)
     _env['words'] = sorted(R.INITIAL_WORDS)
     _orient[0] = config.orient
     _env['config'] = config.key()
